@@ -313,9 +313,21 @@ func vfC15_Timer() {
 	vfReach("end")
 }
 
-type vfCollect struct{ b []byte }
+// vfCollect is a WriteTo destination that accepts `limit` bytes in total and then fails (short
+// write with an error); limit < 0 = never fails.
+type vfCollect struct {
+	b     []byte
+	limit int
+}
+
+var vfSinkErr = errors.New("sink failed")
 
 func (c *vfCollect) Write(p []byte) (int, error) {
+	if c.limit >= 0 && len(c.b)+len(p) > c.limit {
+		k := c.limit - len(c.b)
+		c.b = append(c.b, p[:k]...)
+		return k, vfSinkErr
+	}
 	c.b = append(c.b, p...)
 	return len(p), nil
 }
@@ -326,7 +338,7 @@ func vfC15_WriteTo() {
 	a, b := NewPipe()
 	d1 := vfPipeData("d1", L, 0)
 	d2 := vfPipeData("d2", L, 0x80)
-	var c vfCollect
+	c := vfCollect{limit: -1}
 	var nt int64
 	var te, e1, e2 error
 	var n1, n2 int
@@ -347,6 +359,38 @@ func vfC15_WriteTo() {
 		vfAssert(c.b[w] == d1[w], "forwarded in order (first write)")
 	} else {
 		vfAssert(c.b[w] == d2[w-L], "forwarded in order (second write)")
+	}
+	vfReach("end")
+}
+
+// vfC15_WriteToFail: the WriteTo destination fails after a symbolic number of bytes.  WriteTo
+// reports the destination's error and the bytes it accepted, the peer's write reports exactly
+// those bytes once the reader gives up (CloseRead), and nothing deadlocks.
+func vfC15_WriteToFail() {
+	L := vfCase("L")
+	a, b := NewPipe()
+	d := vfPipeData("d", L, 0)
+	lim := vfInt("limit")
+	vfAssume(lim >= 0 && lim < L)
+	c := vfCollect{limit: lim}
+	var nt int64
+	var te, we error
+	var nw int
+	vfSchedule(vfCase("preempt"))
+	vfGo("t", func() {
+		nt, te = b.WriteTo(&c)
+		b.CloseRead()
+	})
+	vfGo("w", func() { nw, we = a.Write(d) })
+	vfJoin()
+	vfAssert(te != nil && errors.Is(te, vfSinkErr), "WriteTo reports the destination's error")
+	vfAssert(nt == int64(lim) && len(c.b) == lim, "WriteTo counts the bytes the destination accepted")
+	vfAssert(nw == lim, "the write reports exactly the bytes the reader consumed")
+	vfAssert(we == io.ErrClosedPipe, "the write is failed by the reader closing its side")
+	if lim > 0 {
+		w := vfInt("w")
+		vfAssume(w >= 0 && w < lim)
+		vfAssert(c.b[w] == d[w], "accepted bytes intact")
 	}
 	vfReach("end")
 }
